@@ -50,7 +50,7 @@ func (c *c18Ctx) c18Truncations(lg *c18Log, st *c18Stream, rnd *rand.Rand) {
 			set[x] = true
 		}
 	}
-	if r.Thorough() && last.Size <= 5000 {
+	if r.Thorough() && last.Size <= 1500 {
 		for x := int64(0); x <= last.Size; x++ {
 			add(x)
 		}
